@@ -300,6 +300,9 @@ pub struct NetCfg {
     pub optimizer: Option<OptCfg>,
     pub objective: Obj,
     pub clamp: Option<(f32, f32)>,
+    /// `set_activation(layer, activation)` calls made after the layers are added
+    #[serde(default)]
+    pub set_activations: Vec<(usize, Act)>,
 }
 
 impl NetCfg {
@@ -314,6 +317,7 @@ impl NetCfg {
             optimizer: None,
             objective: Obj::MSE,
             clamp: None,
+            set_activations: Vec::new(),
         }
     }
 
@@ -379,6 +383,9 @@ impl NetCfg {
                     acc.to_lib(),
                 ),
             }
+        }
+        for (layer, act) in &self.set_activations {
+            net.set_activation(*layer, act.to_lib());
         }
         crate::exec::set_phase("build:connect");
         for (from, to) in &self.connects {
